@@ -329,3 +329,75 @@ Proof.
   - eapply match_seq_nodup; eassumption.
   - intros r Hr. pose proof (match_seq_bounds _ _ _ _ _ H r Hr). lia.
 Qed.
+
+(* 9. GPOS 6.1 (mark to mark): mark2 is the glyph preceding the mark under
+   the lookup flags - the nearest preceding kept glyph, everything between is
+   skipped by the flags; the mark's offsets become mark2's offsets + (mark2
+   anchor - mark1 anchor) - the advances from mark2 up to the mark; glyph id,
+   text and advance are unchanged.  The domain flag of the effect is exactly:
+   result within int16 and mark2's own offsets zero (together with mm_same
+   these are the inputs on which the implementation agrees, open finding
+   c06-gpos6-markmark). *)
+Theorem gpos_adds_exactly_markmark : forall gd kp seq a b marks1 (marks2 : list (N * list anchor)) g0
+    cls mx my g2 l2 d (anchors : list anchor) bx byy,
+  nth_error seq a = Some g0 -> assoc (gid g0) marks1 = Some (cls, (mx, my)) ->
+  next_kept kp (rev (firstn a seq)) 0 = Some (g2, l2, d) ->
+  mm_same (Some (g2, l2, d)) (find_base marks2 (rev (firstn a seq)) 1) = true ->
+  assoc (gid g2) marks2 = Some anchors ->
+  nth_error anchors cls = Some (Some (bx, byy)) ->
+  (nth_error (rev (firstn a seq)) d = Some g2 /\ kp (gid g2) = true /\
+   (forall i h, i < d -> nth_error (rev (firstn a seq)) i = Some h -> kp (gid h) = false)) /\
+  let g' := mkG (gid g0) (gtext g0)
+                (gx g2 + (bx - mx - sum_adv (slice seq (a - S d) a)))%Z
+                (gy g2 + (byy - my))%Z (gadv g0) in
+  simple_effect gd kp seq a b (SMarkMark marks1 marks2) =
+  Some (ESet [(a, g')] (S a), glyph_fits g' && Z.eqb (gx g2) 0 && Z.eqb (gy g2) 0).
+Proof.
+  intros gd kp seq a b marks1 marks2 g0 cls mx my g2 l2 d anchors bx byy Hn Hm Hk Hs Ha Hc. split.
+  - pose proof (next_kept_spec _ _ _ _ _ _ Hk) as (_ & Hnth & Hkp & _ & Hskip).
+    rewrite Nat.sub_0_r in *. repeat split; auto.
+  - eapply markmark_effect; eassumption.
+Qed.
+Print Assumptions gpos_adds_exactly_markmark.
+
+(* 10. GSUB 8.1 (reverse chaining single substitution): a lookup made of 8.1
+   subtables is processed from the END of the sequence (position p-1 first,
+   then p-2, ... 0); at a position the glyph is replaced iff it has an entry,
+   the preceding kept glyphs match the backtrack coverages (closest first) and
+   the following kept glyphs match the lookahead coverages.  The domain flag of
+   such a lookup is exactly "the forward scan gives the same sequence" (the
+   implementation scans forward: open finding c06-gsub8-forward-order). *)
+Theorem reverse_chaining_from_end : forall ll gd lk p seq,
+  rscan ll gd B lk 0 seq = seq /\
+  rscan ll gd B lk (S p) seq =
+    match step ll gd B lk p seq with (seq', _, _) => rscan ll gd B lk p seq' end.
+Proof. intros. split; reflexivity. Qed.
+
+Theorem reverse_chaining_lookup : forall ll gd lk li seq ok,
+  nth_error ll li = Some lk ->
+  (is_reverse lk = true ->
+   apply_lookup ll gd B (seq, ok) li =
+   (rscan ll gd B lk (length seq) seq,
+    ok && seq_eqb (rscan ll gd B lk (length seq) seq)
+                  (fst (scan ll gd B lk (length seq) (length seq) seq true)))) /\
+  (is_reverse lk = false ->
+   apply_lookup ll gd B (seq, ok) li = scan ll gd B lk (length seq) (length seq) seq ok).
+Proof.
+  intros. split; intros.
+  - apply apply_lookup_reverse; assumption.
+  - apply apply_lookup_forward; assumption.
+Qed.
+Print Assumptions reverse_chaining_lookup.
+
+Theorem reverse_chaining_substitutes : forall gd kp seq a b m back look g0 h,
+  nth_error seq a = Some g0 -> assoc (gid g0) m = Some h ->
+  (match_ctx kp (map PCov back) (rev (firstn a seq)) = true ->
+   match_ctx kp (map PCov look) (skipn (S a) seq) = true ->
+   simple_effect gd kp seq a b (SRevChain m back look) = Some (ESet [(a, set_gid h g0)] (S a), true)) /\
+  (match_ctx kp (map PCov back) (rev (firstn a seq)) && match_ctx kp (map PCov look) (skipn (S a) seq) = false ->
+   simple_effect gd kp seq a b (SRevChain m back look) = None).
+Proof.
+  intros. split; intros.
+  - eapply revchain_effect; eassumption.
+  - eapply revchain_no_context; eassumption.
+Qed.
